@@ -35,7 +35,7 @@ def check(ctx, tier):
     alias_exposure(ctx, tk)
     materialisation_step(ctx, tk, coh)
     from .. import hazards as _hz, scopes as _sc
-    _hz.generic(ctx, tk, "C06.z", _sc.scope(tk, "C06"))
+    _hz.generic(ctx, tk, "C06.z", _sc.scope(tk, "C06", depth=2))
     return {"materialising_methods": sorted(coh.ts.materialisers()),
             "entry_states": {q: sorted(v) for q, v in coh.entry.items() if v}}
 
@@ -143,3 +143,46 @@ def materialisation_step(ctx, tk, coh):
                      "ravel can return the raw buffer of a lazy view without materialising", engine="E2")
     else:
         ctx.holds("C06.e", "raggedarray.base.RaggedBase.ravel", "ravel() leaves the array materialised on every path", engine="E2")
+    buffer_extent_reads(ctx, tk)
+
+
+def buffer_extent_reads(ctx, tk):
+    """VC5: the extent (size / shape / len) of the raw buffer says something about the array only once the
+    buffer is the array's own; on a lazy view it is the parent's buffer"""
+    from ..guards import facts_at as _facts
+    cls = ctx.program.cls("raggedarray.base.RaggedBase")
+    what = "the extent of the raw buffer is read only where the buffer is the array's own (materialised, or just gathered)"
+    n_sites = 0
+    for m in cls.methods.values():
+        fa = ctx.fa(m)
+        if not m.params:
+            continue
+        selfn = m.params[0]
+        gathers = [n for n in fa.cfg.stmts() if n.kind == "stmt" and isinstance(n.ast, ast.Assign) and any(
+            isinstance(tg, ast.Attribute) and tg.attr == "__data" and isinstance(tg.value, ast.Name) and tg.value.id == selfn for tg in n.ast.targets)]
+        for n in fa.cfg.stmts():
+            if not fa.cfg.is_reachable(n):
+                continue
+            from ..resolve import _exprs_of_node
+            for e in _exprs_of_node(n):
+                for x in ast.walk(e):
+                    hit = None
+                    if isinstance(x, ast.Attribute) and x.attr in ("size", "shape", "nbytes") and isinstance(x.value, ast.Attribute) and x.value.attr == "__data" \
+                            and isinstance(x.value.value, ast.Name) and x.value.value.id == selfn:
+                        hit = x
+                    if isinstance(x, ast.Call) and isinstance(x.func, ast.Name) and x.func.id == "len" and x.args and isinstance(x.args[0], ast.Attribute) \
+                            and x.args[0].attr == "__data" and isinstance(x.args[0].value, ast.Name) and x.args[0].value.id == selfn:
+                        hit = x
+                    if hit is None:
+                        continue
+                    n_sites += 1
+                    after_gather = any(g is not n and fa.cfg.dominates(g, n) for g in gathers)
+                    mat_fact = any(truth and (attr_chain(t) or ("",))[-1] == "is_contigous" for t, truth, _ in _facts(fa, n))
+                    in_ctor = m.name == "__init__"
+                    ok = after_gather or mat_fact or in_ctor
+                    ctx.decide("C06.e", m, what, True if ok else False,
+                               "`%s` is read while the array may still be a lazy view: it is the size of the parent's buffer, not of this array" % ast.unparse(hit),
+                               node=hit, key="extent:" + ast.unparse(hit), engine="E2")
+    if not n_sites:
+        ctx.holds("C06.e", "raggedarray.base.RaggedBase.size", "no reachable read of the raw buffer's extent in RaggedBase", key="extent:none", engine="E2")
+
